@@ -574,6 +574,10 @@ func genTransport(root *pkg) *genFile {
 	g.def("wsCleanup", "List String", leanStrList(fnActions(root.fn("WebsocketTransport", "cleanup"))), "flattened actions of WebsocketTransport.cleanup")
 	g.def("wsRead", "List String", leanStrList(fnActions(root.fn("WebsocketTransport", "Read"))), "flattened actions of WebsocketTransport.Read")
 	g.def("wsStartReader", "List (List String)", leanStrListList(funcLits(root.fn("WebsocketTransport", "startReader"))), "the reader goroutine started by WebsocketTransport.startReader")
+	g.def("wsDoesStartTLS", "List String", leanStrList(returnShapes(root.fn("WebsocketTransport", "DoesStartTLS"))), "what WebsocketTransport.DoesStartTLS returns")
+	g.def("wsIsSecure", "List String", leanStrList(returnShapes(root.fn("WebsocketTransport", "IsSecure"))), "what WebsocketTransport.IsSecure returns")
+	g.def("newSessionConds", "List String", leanStrList(ifConds(root.fn("", "NewSession"))), "if conditions of NewSession in source order (the TLS gate is the third)")
+	g.def("startTlsConds", "List String", leanStrList(ifConds(root.fn("Session", "startTlsIfSupported"))), "if conditions of Session.startTlsIfSupported")
 	g.def("wsPing", "List String", leanStrList(fnActions(root.fn("WebsocketTransport", "Ping"))), "flattened actions of WebsocketTransport.Ping")
 	return g
 }
